@@ -104,6 +104,21 @@ pub static NS_URIS: [&[u8]; ns::COUNT] = [
     b"http://xml.juniper.net/junos/23.1R0/junos",
 ];
 
+pub const NS_CAP: usize = 42;
+
+/// The namespace URIs as inline strings.  The reader copies the one that applies into a buffer
+/// it owns and hands out a slice of *that* (concrete address, 6-way symbolic content): comparing
+/// a namespace costs 40 plain byte reads instead of 40 dereferences of a pointer that may point
+/// into any of the tables.
+pub(crate) static NS_TABLE: [Inline<NS_CAP>; ns::COUNT] = [
+    Inline::lit(b""),
+    Inline::lit(b"urn:ietf:params:xml:ns:netconf:base:1.0"),
+    Inline::lit(b"http://xml.juniper.net/xnm/1.1/xnm"),
+    Inline::lit(b"http://yang.juniper.net/junos/jcmd"),
+    Inline::lit(b"urn:example:other"),
+    Inline::lit(b"http://xml.juniper.net/junos/23.1R0/junos"),
+];
+
 /// Prefixes the renderer declares on the root element and the attribute resolver knows.
 pub static PREFIXES: [(&[u8], u8); 5] = [
     (b"nc", ns::BASE),
